@@ -5,6 +5,7 @@ import Luqum.Model.Naming
 import Luqum.Model.Check
 import Luqum.Model.Pretty
 import Luqum.Model.Es
+import Luqum.Model.Schema
 
 namespace Luqum.Ops
 open Lean (Json)
@@ -217,6 +218,22 @@ def handle (j : Json) : Except String Json := do
     match esBuild cfg t with
     | .ok v => return Json.mkObj [("ok", jvalJ v)]
     | .error e => return Json.mkObj [("err", esErrJ e)]
+  | "schema" =>
+    let sch ← getJVal (← j.getObjVal? "schema")
+    let strs (xs : List Str) : Json := Json.arr ((xs.map String.ofList).toArray.qsort (· < ·) |>.map Json.str)
+    let base := [("default_field", str (schemaDefaultField sch)),
+      ("not_analyzed_fields", strs (schemaNotAnalyzed sch)),
+      ("nested_fields", jvalJ (.obj (schemaNestedFields sch))),
+      ("object_fields", strs (schemaObjectFields sch)),
+      ("sub_fields", strs (schemaSubFields sch))]
+    match j.getObjVal? "tree" with
+    | .ok tj =>
+      let t ← getTree tj
+      let res := match esBuild (schemaCfg sch) t with
+        | .ok v => Json.mkObj [("ok", jvalJ v)]
+        | .error e => Json.mkObj [("err", esErrJ e)]
+      return Json.mkObj (base ++ [("build", res)])
+    | .error _ => return Json.mkObj base
   | "specs" =>
     let cfg ← getCfg (← j.getObjVal? "cfg")
     let strs (xs : List Str) : Json := Json.arr ((xs.map String.ofList).toArray.qsort (· < ·) |>.map Json.str)
